@@ -16,7 +16,8 @@ import AioModel.Generated.C15
 * `statF`, `osLstat`  = `Path.stat()` (follows symlinks), `Path.lstat()` (follows them in the directory part)
 * `pathSegs`          = pathlib's parsing of the joined path (`//` and `.` dropped, `..` kept)
 * `lexNorm`           = `os.path.normpath` of an absolute pathlib path
-* `resolvePath`       = `StaticResource._handle` + `_resolve_path_to_response`
+* `resolvePathG`      = `StaticResource._handle` + `_resolve_path_to_response` (parameter: is the
+                        resolve-fixpoint check of the F21 repair present in the source)
 * `fileTarget`        = `FileResponse._get_file_path_stat_encoding` (pre-compressed sibling by `lstat`,
                         then `stat` of the file itself, regular-file test)
 * `serve`             = what a GET on the static route finally answers with
@@ -217,9 +218,17 @@ inductive Out where
   | file (real : Path) (id : Nat) (enc : Option Str)
 deriving Repr, DecidableEq
 
+/-- `file_path.resolve() != file_path` is false (no exception, same path) -/
+def isFixpoint (fs : Fs) (fuel : Nat) (p : Path) : Bool :=
+  match realpath fs fuel p with
+  | .ok p2 => p2 == p
+  | .error _ => false
+
 /-- outcome of `_handle` up to the choice of response object:
-`.inl out` = answered already, `.inr p` = `FileResponse(p)` -/
-def resolvePath (fs : Fs) (fuel : Nat) (cfg : Cfg) (filename : Str) : Out ⊕ Path :=
+`.inl out` = answered already, `.inr p` = `FileResponse(p)`.
+`fix` = the source contains the check `if file_path.resolve() != file_path: raise ValueError`
+in the non-follow branch (added to repair finding F21; probed from the source on every run). -/
+def resolvePathG (fix : Bool) (fs : Fs) (fuel : Nat) (cfg : Cfg) (filename : Str) : Out ⊕ Path :=
   if filename.head? = some SLASH then .inl .notFound            -- Path(filename).is_absolute()
   else
     let unresolved := cfg.root ++ pathSegs filename              -- self._directory.joinpath(filename)
@@ -230,7 +239,9 @@ def resolvePath (fs : Fs) (fuel : Nat) (cfg : Cfg) (filename : Str) : Out ⊕ Pa
         else none
       else
         match realpath fs fuel unresolved with
-        | .ok p => if cfg.root.isPrefixOf p then some p else none
+        | .ok p =>
+          if fix && !isFixpoint fs fuel p then none
+          else if cfg.root.isPrefixOf p then some p else none
         | .error _ => none
     match checked with
     | none => .inl .notFound
@@ -278,10 +289,14 @@ def fileTarget (fs : Fs) (fuel : Nat) (p : Path) (acceptEnc : Str) : Out :=
     | _ => .notFound
 
 /-- GET `filename` on the static route -/
-def serve (fs : Fs) (fuel : Nat) (cfg : Cfg) (filename : Str) (acceptEnc : Str) : Out :=
-  match resolvePath fs fuel cfg filename with
+def serveG (fix : Bool) (fs : Fs) (fuel : Nat) (cfg : Cfg) (filename : Str) (acceptEnc : Str) : Out :=
+  match resolvePathG fix fs fuel cfg filename with
   | .inl o => o
   | .inr p => fileTarget fs fuel p (asciiLower acceptEnc)
+
+/-- the route as the source is *now* (the flag is regenerated from the source) -/
+def serve (fs : Fs) (fuel : Nat) (cfg : Cfg) (filename : Str) (acceptEnc : Str) : Out :=
+  serveG Gen.C15.resolveFixpointCheck fs fuel cfg filename acceptEnc
 
 /-! ## a file system given by a table (driver input, and the toy instance of the theorems) -/
 
